@@ -37,91 +37,123 @@ func checkC08(p *Prog, r *Report) {
 		r.Saw("func " + fnName(f))
 	}
 
-	/* 1. */
-	var loadCall, genCall, saveCall *ssa.Call
-	eachInstr(get, func(i ssa.Instruction) {
-		c, ok := i.(*ssa.Call)
-		if !ok || nil == c.Common().StaticCallee() {
-			return
+	/* 1. The functions which decide between the cached certificate and a
+	new one: those which call the generator (GetCertificate; a caller it was
+	written into counts as well). */
+	isGen := func(c *ssa.Call) bool {
+		sc := c.Common().StaticCallee()
+		return nil != sc && inModule(sc) && strings.HasPrefix(strings.ToLower(sc.Name()), "generate")
+	}
+	isCacheRead := func(c *ssa.Call) bool {
+		switch calleeName(c.Common()) {
+		case "golang.org/x/tools/txtar.ParseFile", "os.ReadFile", "os.Open", "io/ioutil.ReadFile":
+			return true
 		}
-		switch c.Common().StaticCallee() {
-		case load:
-			loadCall = c
-		case save:
-			saveCall = c
-		default:
-			if strings.HasPrefix(strings.ToLower(c.Common().StaticCallee().Name()), "generate") && inModule(c.Common().StaticCallee()) {
-				genCall = c
-			}
+		return c.Common().StaticCallee() == load
+	}
+	type manager struct {
+		fn      *ssa.Function
+		genCall *ssa.Call
+	}
+	var managers []manager
+	genOf := map[*ssa.Function]*ssa.Call{}
+	for _, fn := range p.Funcs() {
+		if nil != fn.Parent() || nil == fn.Pkg || !strings.HasSuffix(fn.Pkg.Pkg.Path(), "/"+sstlsPkg) {
+			continue
 		}
-	})
-	if nil == loadCall || nil == genCall {
-		rNE.Unproven(fnName(get)+":calls", get.Pos(), "load or generation call not found in GetCertificate")
-	} else {
-		errV := extractOf(loadCall, 1)
-		tests := nilTestsOf(get, errV)
-		if nil == errV || 0 == len(tests) {
-			rNE.Bad(fnName(get)+":load-error", posOf(loadCall), "the load error is not tested")
-		} else {
-			/* Edges asserting errors.Is(err, fs.ErrNotExist). */
-			ne := map[Edge]bool{}
-			nis := 0
-			for _, b := range get.Blocks {
-				ifi := blockIf(b)
-				if nil == ifi {
-					continue
-				}
-				dc := decodeCond(ifi.Cond)
-				call, ok := dc.X.(*ssa.Call)
-				if !ok || nil != dc.Y {
-					continue
-				}
-				switch calleeName(call.Common()) {
-				case "errors.Is":
-					if call.Common().Args[0] != ssa.Value(errV) {
-						continue
-					}
-					if !globalLoad(call.Common().Args[1], "io/fs", "ErrNotExist") && !globalLoad(call.Common().Args[1], "os", "ErrNotExist") {
-						continue
-					}
-				case "os.IsNotExist":
-					if call.Common().Args[0] != ssa.Value(errV) {
-						continue
-					}
-				default:
-					continue
-				}
-				nis++
-				k := 1
-				if dc.Eq {
-					k = 0
-				}
-				ne[Edge{b.Index, b.Succs[k].Index}] = true
+		var gc *ssa.Call
+		reads := false
+		eachInstr(fn, func(i ssa.Instruction) {
+			if c, ok := i.(*ssa.Call); ok && isGen(c) {
+				gc = c
 			}
-			bad := false
-			for _, t := range tests {
-				from := edgeLoc(t.If.Block(), 1-t.NilSucc)
-				if hit := (reachQ{From: from, NoEdges: ne, Target: func(i ssa.Instruction) bool { return i == ssa.Instruction(genCall) }}).run(); nil != hit {
-					bad = true
-				}
+			if c, ok := i.(*ssa.Call); ok && isCacheRead(c) {
+				reads = true
 			}
-			switch {
-			case 0 == nis:
-				rNE.Bad(fnName(get)+":not-exist-test", posOf(loadCall), "the load error is never compared with fs.ErrNotExist: any damaged cache would be silently replaced by a new key")
-			case bad:
-				rNE.Bad(fnName(get)+":only-not-exist", posOf(genCall), "a load error other than not-exist can fall through to generating (and serving) a new key")
+		})
+		if nil != gc && reads {
+			managers = append(managers, manager{fn, gc})
+			genOf[fn] = gc
+		}
+	}
+	if 0 == len(managers) {
+		rNE.Unproven(fnName(get)+":calls", get.Pos(), "no function of sstls calls the certificate generator")
+	}
+	for _, m := range managers {
+		mfn, gc := m.fn, m.genCall
+		r.Saw("func " + fnName(mfn))
+		/* The "nothing cached yet" tests, and the error they examine. */
+		ne := map[Edge]bool{}
+		var errVs []ssa.Value
+		var readCalls []*ssa.Call
+		for _, b := range mfn.Blocks {
+			ifi := blockIf(b)
+			if nil == ifi {
+				continue
+			}
+			dc := decodeCond(ifi.Cond)
+			call, ok := dc.X.(*ssa.Call)
+			if !ok || nil != dc.Y {
+				continue
+			}
+			switch calleeName(call.Common()) {
+			case "errors.Is":
+				if !globalLoad(call.Common().Args[1], "io/fs", "ErrNotExist") && !globalLoad(call.Common().Args[1], "os", "ErrNotExist") {
+					continue
+				}
+			case "os.IsNotExist":
 			default:
-				rNE.OK(fnName(get)+":only-not-exist", posOf(genCall), "after a failed load, generation is reachable only over errors.Is(err, fs.ErrNotExist)")
+				continue
 			}
-			/* A successful load returns the loaded certificate. */
-			for _, t := range tests {
+			/* The error examined is (a wrapping of) the cache read's. */
+			fromRead := false
+			for _, src := range errorSources(call.Common().Args[0], 0) {
+				if nil != src.Call && isCacheRead(src.Call) && src.Call.Parent() == mfn {
+					fromRead = true
+					readCalls = append(readCalls, src.Call)
+				}
+			}
+			if !fromRead {
+				continue
+			}
+			errVs = append(errVs, call.Common().Args[0])
+			k := 1
+			if dc.Eq {
+				k = 0
+			}
+			ne[Edge{b.Index, b.Succs[k].Index}] = true
+		}
+		switch {
+		case 0 == len(ne):
+			rNE.Bad(fnName(mfn)+":not-exist-test", posOf(gc), "the error of reading the cache is never compared with fs.ErrNotExist before a new key is generated: any damaged cache would be silently replaced by a new key")
+			continue
+		}
+		falls := false
+		for _, rc := range readCalls {
+			if nil != (reachQ{From: locOf(rc), NoEdges: ne, Target: func(i ssa.Instruction) bool { return i == ssa.Instruction(gc) }}).run() {
+				falls = true
+			}
+		}
+		switch {
+		case falls:
+			rNE.Bad(fnName(mfn)+":only-not-exist", posOf(gc), "once the cache has been read, a new key can be generated (and served) without the read having failed with not-exist: a load error other than that can fall through to generation")
+		default:
+			rNE.OK(fnName(mfn)+":only-not-exist", posOf(gc), "generation is reachable only over errors.Is(err, fs.ErrNotExist) on the cache read's error")
+		}
+		/* A successful load returns the loaded certificate. */
+		for _, errV := range errVs {
+			for _, t := range nilTestsOf(mfn, errV) {
 				from := edgeLoc(t.If.Block(), t.NilSucc)
 				if hit := (reachQ{From: from, Target: func(i ssa.Instruction) bool {
-					return i == ssa.Instruction(genCall) || (nil != saveCall && i == ssa.Instruction(saveCall))
+					if i == ssa.Instruction(gc) {
+						return true
+					}
+					c, ok := i.(*ssa.Call)
+					return ok && (c.Common().StaticCallee() == save || cacheWriters[calleeName(c.Common())])
 				}}).run(); nil != hit {
-					rNE.Bad(fnName(get)+":loaded-is-served", posOf(hit), "after a successful load the function can still generate or save a certificate")
+					rNE.Bad(fnName(mfn)+":loaded-is-served", posOf(hit), "after a successful load the function can still generate or save a certificate")
 				} else {
-					rNE.OK(fnName(get)+":loaded-is-served", posOf(loadCall), "a successful load returns without generating or saving")
+					rNE.OK(fnName(mfn)+":loaded-is-served", posOf(t.If), "a successful load returns without generating or saving")
 				}
 			}
 		}
@@ -131,28 +163,21 @@ func checkC08(p *Prog, r *Report) {
 	checkC08Loader(p, r, rLoad, load)
 
 	/* 3. Writers. */
-	callers := p.callersOf(save)
 	n := 0
-	for _, ci := range callers {
-		n++
+	for _, ci := range p.callersOf(save) {
 		c := fnName(ci.Parent()) + "→SaveCertificate"
-		if ci.Parent() != get {
-			rWrite.Bad(c, posOf(ci), "SaveCertificate is called outside GetCertificate")
-			continue
-		}
-		if nil != genCall && instrDominates(genCall, ci) {
+		gc := genOf[ci.Parent()]
+		switch {
+		case nil == gc:
+			rWrite.Bad(c, posOf(ci), "SaveCertificate is called outside the function which decides on generation")
+		case instrDominates(gc, ci):
+			n++
 			rWrite.OK(c, posOf(ci), "only after a certificate was generated in this call")
-		} else {
+		default:
 			rWrite.Bad(c, posOf(ci), "the cache can be saved without a certificate having been generated in this call: an existing cache file would be rewritten")
 		}
 	}
-	if 1 != n {
-		rWrite.Bad("SaveCertificate:callers", save.Pos(), "%d callers of SaveCertificate, exactly one expected", n)
-	}
-	writers := map[string]bool{
-		"os.WriteFile": true, "os.Create": true, "os.OpenFile": true, "os.Rename": true, "os.Remove": true, "os.RemoveAll": true,
-		"os.Mkdir": true, "os.MkdirAll": true, "os.Chmod": true, "os.Truncate": true, "io/ioutil.WriteFile": true, "os.CreateTemp": true, "os.Symlink": true, "os.Link": true,
-	}
+	writers := cacheWriters
 	nw := 0
 	for _, fn := range p.Funcs() {
 		if nil == fn.Pkg || !strings.HasSuffix(fn.Pkg.Pkg.Path(), "/"+sstlsPkg) {
@@ -170,10 +195,14 @@ func checkC08(p *Prog, r *Report) {
 			nw++
 			name := calleeName(c)
 			cc := fmt.Sprintf("%s→%s", fnName(fn), name)
-			if top != save {
-				rWrite.Bad(cc, posOf(i), "%s outside SaveCertificate: the cache (or its directory) is modified on a path other than first generation", name)
-			} else {
+			switch gc := genOf[top]; {
+			case top == save:
 				rWrite.OK(cc, posOf(i), "inside SaveCertificate")
+			case nil != gc && fn == top && instrDominates(gc, i):
+				n++
+				rWrite.OK(cc, posOf(i), "written out where SaveCertificate would be called: only after a certificate was generated in this call")
+			default:
+				rWrite.Bad(cc, posOf(i), "%s outside SaveCertificate: the cache (or its directory) is modified on a path other than first generation", name)
 			}
 			/* 4. Permission bits. */
 			var perm ssa.Value
@@ -197,6 +226,9 @@ func checkC08(p *Prog, r *Report) {
 			}
 		})
 	}
+	if 0 == n {
+		rWrite.Bad("SaveCertificate:callers", save.Pos(), "a generated certificate is never saved: every start would serve a new key")
+	}
 	if nw < 2 {
 		rWrite.Unproven("sstls:writers", save.Pos(), "%d file-system writing calls found in sstls, at least MkdirAll and WriteFile expected", nw)
 	}
@@ -217,7 +249,7 @@ func checkC08Loader(p *Prog, r *Report, ru *Rule, load *ssa.Function) {
 			return
 		}
 		for _, a := range c.Common().Args {
-			if a == ssa.Value(certParam) {
+			if stripConv(a, true) == ssa.Value(certParam) {
 				switch calleeName(c.Common()) {
 				case "golang.org/x/tools/txtar.ParseFile", "os.ReadFile", "os.Open", "io/ioutil.ReadFile":
 					readCall = c
@@ -430,7 +462,28 @@ func checkC08Wiring(p *Prog, r *Report, ru *Rule, get *ssa.Function) {
 		return false, "hsrv.New's certFile is not the value of -tls-certificate-cache"
 	})
 	step(hnew, listen, "certFile", isParam(hnew, "certFile"))
-	step(listen, get, "certFile", isParam(listen, "certFile"))
+	/* Listen hands its certFile to GetCertificate — or, GetCertificate's
+	work being written out in Listen itself, to the loader and the saver. */
+	viaGet := false
+	for _, f := range withAnons(listen) {
+		eachInstr(f, func(i ssa.Instruction) {
+			if cc := callCommon(i); nil != cc && cc.StaticCallee() == get {
+				viaGet = true
+			}
+		})
+	}
+	if viaGet {
+		step(listen, get, "certFile", isParam(listen, "certFile"))
+		return
+	}
+	load := p.Func(sstlsPkg, "", "LoadCachedCertificate")
+	save := p.Func(sstlsPkg, "", "SaveCertificate")
+	if nil == load || nil == save {
+		ru.Unproven(fnName(listen)+"→"+fnName(get)+"(certFile)", listen.Pos(), "call not found")
+		return
+	}
+	step(listen, load, "certFile", isParam(listen, "certFile"))
+	step(listen, save, "certFile", isParam(listen, "certFile"))
 }
 
 // flagNameOf: if v is a load of the pointer returned by flag.String/Bool/...
@@ -537,4 +590,10 @@ func errorSources(e ssa.Value, depth int) []errSource {
 		}
 	}
 	return []errSource{{Name: "?"}}
+}
+
+// cacheWriters: calls which create or change files.
+var cacheWriters = map[string]bool{
+	"os.WriteFile": true, "os.Create": true, "os.OpenFile": true, "os.Rename": true, "os.Remove": true, "os.RemoveAll": true,
+	"os.Mkdir": true, "os.MkdirAll": true, "os.Chmod": true, "os.Truncate": true, "io/ioutil.WriteFile": true, "os.CreateTemp": true, "os.Symlink": true, "os.Link": true,
 }
